@@ -34,6 +34,8 @@ use libp2p_swarm::{
     dummy,
 };
 
+#[cfg(libp2p_verif)] pub mod verif_c52;
+
 /// A [`NetworkBehaviour`] that enforces a set of [`ConnectionLimits`].
 ///
 /// For these limits to take effect, this needs to be composed
